@@ -109,7 +109,10 @@ func (e *StorageEngine) putToShard(sh shardWrapper, addr oid.Address, obj *objec
 	err = sh.Put(obj, objBin)
 	if err != nil {
 		if errors.Is(err, shard.ErrReadOnlyMode) || errors.Is(err, common.ErrReadOnly) ||
-			errors.Is(err, common.ErrNoSpace) {
+			errors.Is(err, common.ErrNoSpace) ||
+			// logical refusals say nothing about the shard's health
+			errors.Is(err, apistatus.ErrObjectLocked) || errors.Is(err, apistatus.ErrObjectAlreadyRemoved) ||
+			errors.Is(err, apistatus.ErrLockNonRegularObject) {
 			sh.engine.log.Warn("could not put object to shard",
 				zap.Stringer("shard_id", sh.ID()),
 				zap.Error(err))
